@@ -1,6 +1,7 @@
 package main
 
 import (
+	"fmt"
 	"go/token"
 	"go/types"
 
@@ -48,6 +49,32 @@ func (ex *Exec) guardCheck(st *State, addr Term, write bool, pos token.Pos) {
 // selectHook: sends on a wake-up channel declared `guarded S.f by mu send`
 // must happen while holding mu (rule W2 of the wait/notify protocol).
 func (ex *Exec) selectHook(st *State, fr *Frame, x *ssa.Select, out []Term) {
+	w := ex.w
+	// a receive from ctx.Done() can only be selected once ctx is cancelled;
+	// while blocked, other threads may cancel any context (monotone havoc)
+	havoced := false
+	for i, s := range x.States {
+		if s.Dir != types.RecvOnly {
+			continue
+		}
+		call, ok := s.Chan.(*ssa.Call)
+		if !ok || !call.Call.IsInvoke() || call.Call.Method.Name() != "Done" || types.TypeString(call.Call.Value.Type(), nil) != "context.Context" {
+			continue
+		}
+		if _, declared := w.CS.Ghosts["cancelled"]; !declared {
+			continue
+		}
+		as := ArraySort(SRef, SBool)
+		if !havoced {
+			oldC := w.heapGet(st.heap, "G_cancelled", as)
+			nc := w.Fresh("cancelled!select", as)
+			st.assume(Term{fmt.Sprintf("(forall ((r!q Ref)) (! (=> (select %s r!q) (select %s r!q)) :pattern ((select %s r!q))))", oldC.S, nc.S, nc.S), SBool})
+			w.heapSet(st.heap, "G_cancelled", nc)
+			havoced = true
+		}
+		ctx := ex.operand(st, fr, call.Call.Value)
+		st.assume(Implies(Eq(out[0], IntLit(int64(i))), Select(w.heapGet(st.heap, "G_cancelled", as), ctx)))
+	}
 	for _, s := range x.States {
 		if s.Dir == types.SendOnly {
 			ex.sendGuard(st, fr, s.Chan, x.Pos())
@@ -83,6 +110,12 @@ func (ex *Exec) checkLockPost(st *State, pos token.Pos) {}
 
 // initLocks: mutexes embedded (by value) in a freshly allocated object start unlocked.
 func (ex *Exec) initLocks(st *State, base Term, t types.Type, depth int) {
+	if n, ok := types.Unalias(t).(*types.Named); ok && depth == 0 && n.Obj().Pkg() != nil && n.Obj().Pkg().Path() == "sync" &&
+		(n.Obj().Name() == "Mutex" || n.Obj().Name() == "RWMutex") {
+		ls := ex.w.heapGet(st.heap, "LockState", ArraySort(SRef, SInt))
+		ex.w.heapSet(st.heap, "LockState", Store(ls, base, IntLit(0)))
+		return
+	}
 	stt, ok := asStruct(t)
 	if !ok || depth > 3 {
 		return
